@@ -366,3 +366,7 @@ Proof.
   - eexists. split; [right; left; reflexivity|]. vm_compute. split; [right; left; reflexivity | left; reflexivity].
   - intros [s [Hs [H3 H2]]]. vm_compute in Hs. destruct Hs as [E|[E|[E|[]]]]; subst s; vm_compute in H3, H2; intuition discriminate.
 Qed.
+
+Theorem same_split_iff_kf : forall ord g, ord_ok ord -> graph_ok (base g) -> kf_ambiguous_O g = false ->
+  forall u v, In u (ids (base g)) -> In v (ids (base g)) -> (same_split ord g u v <-> agree g u v).
+Proof. intros ord g Hord Hok Hamb. apply (same_split_iff ord g Hord Hok). apply namb_of_kf; [apply Hok | exact Hamb]. Qed.
